@@ -396,12 +396,19 @@ fn usizes(v: &[usize]) -> Value {
     Value::Array(v.iter().map(|&x| json!(x)).collect())
 }
 
+fn flat_opt(o: Option<usize>) -> Value {
+    match o {
+        Some(x) => json!(x),
+        None => json!(-1),
+    }
+}
+
 /// questions answered by algorithms::suffix_array::SuffixArray
 fn probe_sa(o: &mut Out, text: &[u8], sa: &SuffixArray, pats: &[Vec<u8>]) {
     let n = text.len();
-    let ranks: Vec<Value> = (0..=n).map(|r| opt(sa.suffix_at_rank(r))).collect();
-    o.ev(json!({"op":"ranks","r":ranks}), n as u64 + 1);
-    o.ev(json!({"op":"text_len","n":sa.text_len()}), 1);
+    // suffix_at_rank(0..=n): None is projected to -1
+    let ranks: Vec<Value> = (0..=n).map(|r| flat_opt(sa.suffix_at_rank(r))).collect();
+    o.ev(json!({"op":"ranks","r":ranks,"n":sa.text_len()}), n as u64 + 2);
     match guard(|| {
         let a: Vec<Value> = pats
             .iter()
@@ -420,8 +427,7 @@ fn probe_sa(o: &mut Out, text: &[u8], sa: &SuffixArray, pats: &[Vec<u8>]) {
         (a, b)
     }) {
         Ok((a, b)) => {
-            o.ev(json!({"op":"search","api":"search","pats":pats_json(pats),"res":a}), pats.len() as u64);
-            o.ev(json!({"op":"search","api":"search_range","pats":pats_json(pats),"res":b}), pats.len() as u64);
+            o.ev(json!({"op":"search","pats":pats_json(pats),"search":a,"range":b}), 2 * pats.len() as u64);
         }
         Err(m) => o.panic("search", m),
     }
@@ -430,9 +436,8 @@ fn probe_sa(o: &mut Out, text: &[u8], sa: &SuffixArray, pats: &[Vec<u8>]) {
 fn probe_lcp(o: &mut Out, text: &[u8], sa: &SuffixArray) {
     match guard(|| LcpArray::new(text, sa)) {
         Ok(Ok(l)) => {
-            o.ev(json!({"op":"lcp","lcp":usizes(l.as_slice())}), text.len() as u64);
-            let at: Vec<Value> = (0..=text.len()).map(|r| opt(l.lcp_at(r))).collect();
-            o.ev(json!({"op":"lcp_at","r":at}), text.len() as u64 + 1);
+            let at: Vec<Value> = (0..=text.len()).map(|r| flat_opt(l.lcp_at(r))).collect();
+            o.ev(json!({"op":"lcp","lcp":usizes(l.as_slice()),"at":at}), 2 * text.len() as u64 + 1);
         }
         Ok(Err(_)) => {
             o.st.refused += 1;
@@ -500,7 +505,10 @@ fn case_esa(o: &mut Out, variant: &str, text: &[u8], pats: &[Vec<u8>]) -> bool {
     o.ev(json!({"op":"sa","ok":true,"sa":usizes(esa.suffix_array().as_slice())}), text.len() as u64);
     probe_sa(o, text, esa.suffix_array(), pats);
     match esa.lcp_array() {
-        Some(l) => o.ev(json!({"op":"lcp","lcp":usizes(l.as_slice())}), text.len() as u64),
+        Some(l) => {
+            let at: Vec<Value> = (0..=text.len()).map(|r| flat_opt(l.lcp_at(r))).collect();
+            o.ev(json!({"op":"lcp","lcp":usizes(l.as_slice()),"at":at}), 2 * text.len() as u64 + 1)
+        }
         None => o.ev(json!({"op":"lcp_absent","why":"none"}), 0),
     }
     if let Some(b) = esa.bwt() {
@@ -542,8 +550,8 @@ fn case_csa(o: &mut Out, comp: &SuffixArrayCompressor, text: &[u8], pats: &[Vec<
     let got = guard(|| {
         let len = esa.len();
         let arr: Vec<Option<usize>> = (0..len).map(|r| esa.suffix_at_rank(r)).collect();
-        let ranks: Vec<Value> = (0..=n).map(|r| opt(esa.suffix_at_rank(r))).collect();
-        let lcp: Vec<Value> = (0..=n).map(|r| opt(esa.lcp_at(r))).collect();
+        let ranks: Vec<Value> = (0..=n).map(|r| flat_opt(esa.suffix_at_rank(r))).collect();
+        let lcp: Vec<Value> = (0..=n).map(|r| flat_opt(esa.lcp_at(r))).collect();
         (arr, ranks, lcp, esa.text_len())
     });
     let (arr, ranks, lcp, tl) = match got {
@@ -560,12 +568,11 @@ fn case_csa(o: &mut Out, comp: &SuffixArrayCompressor, text: &[u8], pats: &[Vec<
     }
     let flat: Vec<usize> = arr.iter().map(|x| x.unwrap()).collect();
     o.ev(json!({"op":"sa","ok":true,"sa":usizes(&flat)}), n as u64);
-    o.ev(json!({"op":"ranks","r":ranks}), n as u64 + 1);
-    o.ev(json!({"op":"text_len","n":tl}), 1);
-    if lcp.iter().all(|v| v.as_array().map(|a| a.is_empty()).unwrap_or(false)) {
+    o.ev(json!({"op":"ranks","r":ranks,"n":tl}), n as u64 + 2);
+    if lcp.iter().all(|v| v.as_i64() == Some(-1)) {
         o.ev(json!({"op":"lcp_absent","why":"none"}), 0);
     } else {
-        o.ev(json!({"op":"lcp_at","r":lcp}), n as u64 + 1);
+        o.ev(json!({"op":"lcp_at","at":lcp}), n as u64 + 1);
     }
     match guard(|| {
         let a: Vec<Value> = pats
@@ -580,9 +587,7 @@ fn case_csa(o: &mut Out, comp: &SuffixArrayCompressor, text: &[u8], pats: &[Vec<
         (a, b, c)
     }) {
         Ok((a, b, c)) => {
-            o.ev(json!({"op":"search","api":"find_pattern_range","pats":pats_json(pats),"res":a}), pats.len() as u64);
-            o.ev(json!({"op":"find","pats":pats_json(pats),"res":b}), pats.len() as u64);
-            o.ev(json!({"op":"count","pats":pats_json(pats),"res":c}), pats.len() as u64);
+            o.ev(json!({"op":"search","pats":pats_json(pats),"range":a,"find":b,"count":c}), 3 * pats.len() as u64);
         }
         Err(m) => o.panic("search", m),
     }
@@ -637,11 +642,11 @@ fn case_dict(o: &mut Out, variant: &str, text: &[u8], pats: &[Vec<u8>]) -> bool 
         (a, b, ok)
     }) {
         Ok((a, b, ok)) => {
-            o.ev(json!({"op":"match","pats":pats_json(&nonempty),"res":a}), nonempty.len() as u64);
             if ok {
-                o.ev(json!({"op":"find_ranked","pats":pats_json(&nonempty),"res":b}), nonempty.len() as u64);
+                o.ev(json!({"op":"search","pats":pats_json(&nonempty),"match":a,"ranked":b}), 2 * nonempty.len() as u64);
             } else {
                 o.st.refused += 1;
+                o.ev(json!({"op":"search","pats":pats_json(&nonempty),"match":a}), nonempty.len() as u64);
             }
         }
         Err(m) => o.panic("match", m),
@@ -727,14 +732,20 @@ fn drive(a: &Args) {
             big: a.get("big").is_some(),
         });
     } else {
-        let small_len = a.get_u64("small-len", if a.thorough() { 8 } else { 7 }) as usize;
+        // every string over <= 3 symbols: up to length L0 for the five algorithms of the builder, L1 for the
+        // other entry points (same constructions behind another API), L2 for the dictionary matcher
+        let (l0, l1, l2) = if a.thorough() { (8, 7, 6) } else { (7, 6, 5) };
+        let l0 = a.get_u64("small-len", l0) as usize;
+        let algos: Vec<&'static str> = vec!["sab:sais", "sab:divsufsort", "sab:dc3", "sab:ls", "sab:adaptive"];
         let heavy: Vec<&'static str> = all.iter().cloned().filter(|s| s.starts_with("dict:")).collect();
-        let light: Vec<&'static str> = all.iter().cloned().filter(|s| !s.starts_with("dict:")).collect();
+        let other: Vec<&'static str> =
+            all.iter().cloned().filter(|s| !s.starts_with("dict:") && !algos.contains(s)).collect();
         // bytes >= 0x80 only matter to code that compares bytes itself: one subject per code path
         let signed: Vec<&'static str> = vec!["sab:sais", "sab:dc3", "sab:divsufsort", "sab:ls", "esa:bwt", "csa:dict", "dict:adaptive"];
-        batches.push(Batch { name: "exh abc".into(), map: Some(map_a), texts: exhaustive(small_len, map_a, "exh abc"), subjects: light.clone(), per_run: 150, big: false });
-        batches.push(Batch { name: "exh abc".into(), map: Some(map_a), texts: exhaustive(small_len.min(if a.thorough() { 7 } else { 6 }), map_a, "exh abc"), subjects: heavy.clone(), per_run: 150, big: false });
-        batches.push(Batch { name: "exh 00 80 ff".into(), map: Some(map_b), texts: exhaustive(if a.thorough() { 7 } else { 6 }, map_b, "exh 00 80 ff"), subjects: signed, per_run: 150, big: false });
+        batches.push(Batch { name: "exh abc".into(), map: Some(map_a), texts: exhaustive(l0, map_a, "exh abc"), subjects: algos, per_run: 150, big: false });
+        batches.push(Batch { name: "exh abc".into(), map: Some(map_a), texts: exhaustive(l1.min(l0), map_a, "exh abc"), subjects: other, per_run: 150, big: false });
+        batches.push(Batch { name: "exh abc".into(), map: Some(map_a), texts: exhaustive(l2.min(l0), map_a, "exh abc"), subjects: heavy, per_run: 150, big: false });
+        batches.push(Batch { name: "exh 00 80 ff".into(), map: Some(map_b), texts: exhaustive(l2.min(l0), map_b, "exh 00 80 ff"), subjects: signed, per_run: 150, big: false });
         batches.push(Batch { name: "families".into(), map: None, texts: families(a.seed, a.thorough()), subjects: all.clone(), per_run: 12, big: false });
         batches.push(Batch {
             name: "big".into(),
@@ -749,6 +760,11 @@ fn drive(a: &Args) {
     let mut max_len = 0usize;
     let mut texts_total = 0usize;
     for b in &batches {
+        if let Some(only) = a.get("only") {
+            if !b.name.starts_with(only) {
+                continue;
+            }
+        }
         texts_total += b.texts.len();
         for &subject in &b.subjects {
             if !a.wants(subject) {
